@@ -234,6 +234,8 @@ func (x *Exec) intrinsic(name string, fn *ssa.Function, args []Value) (Value, bo
 		x.rangeSite = int(sext(args[0].(*Term).c, 64))
 		x.rangeCount = 0
 		return nil, true
+	case "verifNativeRepeat":
+		return BV(1, 64), true
 	case "verifRangeCount":
 		return BV(uint64(x.rangeCount), 64), true
 	}
